@@ -60,3 +60,50 @@ impl Read for Growable {
         Ok(n)
     }
 }
+
+/// Delivers `data` in chunks like `Chunked`, and lets some `read` calls fail the way pipes,
+/// sockets and non-blocking files do. `schedule` is consulted cyclically, one entry per call:
+/// 0 or 1 deliver bytes; 2 reports `ErrorKind::Interrupted` (which `Read::read_exact` and every
+/// well-behaved caller retries at once, so it must be invisible); 3 reports a transient failure
+/// (`WouldBlock`, `TimedOut` or `Other`, in turn) when `transient` is set, else `Interrupted`.
+/// Nothing is consumed by a failing call, and two failures are never delivered in a row.
+pub struct Flaky<'a> {
+    pub data: &'a [u8],
+    pub pos: usize,
+    pub chunk: usize,
+    pub schedule: Vec<u8>,
+    pub transient: bool,
+    pub calls: usize,
+    pub interrupted: usize,
+    /// number of transient failures delivered so far (shared, so the owner of the reader can see it)
+    pub transients: Rc<std::cell::Cell<usize>>,
+    last_failed: bool,
+}
+
+impl<'a> Flaky<'a> {
+    pub fn new(data: &'a [u8], chunk: usize, schedule: Vec<u8>, transient: bool) -> Self {
+        Flaky { data, pos: 0, chunk: chunk.max(1), schedule, transient, calls: 0, interrupted: 0, transients: Rc::new(std::cell::Cell::new(0)), last_failed: false }
+    }
+}
+
+impl<'a> Read for Flaky<'a> {
+    fn read(&mut self, buf: &mut [u8]) -> std::io::Result<usize> {
+        let action = if self.schedule.is_empty() || self.last_failed { 0 } else { self.schedule[self.calls % self.schedule.len()] & 3 };
+        self.calls += 1;
+        if action >= 2 && self.pos < self.data.len() {
+            self.last_failed = true;
+            if action == 3 && self.transient {
+                self.transients.set(self.transients.get() + 1);
+                let kind = [std::io::ErrorKind::WouldBlock, std::io::ErrorKind::TimedOut, std::io::ErrorKind::Other][self.transients.get() % 3];
+                return Err(std::io::Error::new(kind, "transient source failure (injected)"));
+            }
+            self.interrupted += 1;
+            return Err(std::io::Error::new(std::io::ErrorKind::Interrupted, "interrupted (injected)"));
+        }
+        self.last_failed = false;
+        let n = buf.len().min(self.chunk).min(self.data.len() - self.pos);
+        buf[..n].copy_from_slice(&self.data[self.pos..self.pos + n]);
+        self.pos += n;
+        Ok(n)
+    }
+}
